@@ -330,5 +330,114 @@ pub proof fn lemma_closed_sound_is_lfp(g: Seq<Rule>, fa: FA)
     }
 }
 
+
+// =====================================================================================================
+// LR(1) items of the augmented grammar (rules g, start nonterminal `start`)
+// =====================================================================================================
+
+/// the augmented grammar: rules g plus S' -> start
+pub struct Gram<'a> { pub g: Seq<Rule<'a>>, pub start: String }
+
+/// symbol right of the dot (None at the end of the rule)
+pub open spec fn after_dot(gr: Gram, it: StateItem) -> Option<Symbol> {
+    match it.rule_index {
+        RuleIndex::Original(ri) =>
+            if ri < gr.g.len() && it.dot < rule_rhs(gr.g[ri as int]).len() { Some(rule_rhs(gr.g[ri as int])[it.dot as int]) } else { None },
+        RuleIndex::Augmented => if it.dot == 0 { Some(Symbol::Nonterminal(gr.start)) } else { None },
+    }
+}
+
+/// right-hand side of the rule of an item (the augmented rule is S' -> start)
+pub open spec fn item_rhs(gr: Gram, it: StateItem) -> Seq<Symbol> {
+    match it.rule_index {
+        RuleIndex::Original(ri) => if ri < gr.g.len() { rule_rhs(gr.g[ri as int]) } else { Seq::empty() },
+        RuleIndex::Augmented => seq![Symbol::Nonterminal(gr.start)],
+    }
+}
+
+/// the symbols from position `from` to the end of the item's rule
+pub open spec fn rhs_from(gr: Gram, it: StateItem, from: int) -> Seq<Symbol> {
+    let r = item_rhs(gr, it);
+    if 0 <= from <= r.len() { r.subrange(from, r.len() as int) } else { Seq::empty() }
+}
+
+pub open spec fn item_wf(gr: Gram, it: StateItem) -> bool { item_ok(gr.g, it) && it.dot <= item_rhs(gr, it).len() }
+
+pub open spec fn advanced(it: StateItem) -> StateItem { StateItem { rule_index: it.rule_index, lookahead: it.lookahead, dot: (it.dot + 1) as usize } }
+
+/// la is a lookahead of FIRST(syms a): a terminal of FIRST(syms), or `a` itself if syms is nullable
+pub open spec fn in_first_la(gr: Gram, syms: Seq<Symbol>, a: Lookahead, la: Lookahead) -> bool {
+    (la matches Lookahead::Terminal(t) && seq_in_first(gr.g, syms, t)) || (seq_nullable(gr.g, syms) && la == a)
+}
+
+/// LR(1) closure step: it = [A -> alpha . B beta, a]  yields  x = [B -> . gamma, b] for every b in FIRST(beta a)
+pub open spec fn closure_step(gr: Gram, it: StateItem, x: StateItem) -> bool {
+    &&& after_dot(gr, it) matches Some(Symbol::Nonterminal(b))
+        && x.rule_index matches RuleIndex::Original(rj) && rj < gr.g.len() && rule_lhs(gr.g[rj as int]) == b@
+    &&& x.dot == 0
+    &&& in_first_la(gr, rhs_from(gr, it, it.dot + 1), it.lookahead, x.lookahead)
+}
+
+/// x is reachable from the item set s by at most n closure steps
+pub open spec fn closure_reach(gr: Gram, s: Set<StateItem>, n: nat, x: StateItem) -> bool
+    decreases n
+{
+    if n == 0 { s.contains(x) }
+    else { closure_reach(gr, s, (n - 1) as nat, x) || exists|i: StateItem| closure_reach(gr, s, (n - 1) as nat, i) && #[trigger] closure_step(gr, i, x) }
+}
+
+/// x is in the LR(1) closure of s
+pub open spec fn in_closure(gr: Gram, s: Set<StateItem>, x: StateItem) -> bool { exists|n: nat| closure_reach(gr, s, n, x) }
+
+/// t is closed under closure steps
+pub open spec fn closure_closed(gr: Gram, t: Set<StateItem>) -> bool {
+    forall|i: StateItem, x: StateItem| t.contains(i) && #[trigger] closure_step(gr, i, x) ==> t.contains(x)
+}
+
+pub proof fn lemma_closure_base(gr: Gram, s: Set<StateItem>, x: StateItem)
+    requires s.contains(x)
+    ensures in_closure(gr, s, x)
+{
+    assert(closure_reach(gr, s, 0, x));
+}
+
+pub proof fn lemma_closure_step(gr: Gram, s: Set<StateItem>, i: StateItem, x: StateItem)
+    requires in_closure(gr, s, i), closure_step(gr, i, x)
+    ensures in_closure(gr, s, x)
+{
+    let n = choose|n: nat| closure_reach(gr, s, n, i);
+    assert(closure_reach(gr, s, n + 1, x));
+}
+
+/// the closure is the least closed superset
+pub proof fn lemma_closure_least(gr: Gram, s: Set<StateItem>, t: Set<StateItem>, n: nat)
+    requires s.subset_of(t), closure_closed(gr, t)
+    ensures forall|x: StateItem| closure_reach(gr, s, n, x) ==> t.contains(x)
+    decreases n
+{
+    if n > 0 {
+        lemma_closure_least(gr, s, t, (n - 1) as nat);
+        assert forall|x: StateItem| closure_reach(gr, s, n, x) implies t.contains(x) by {
+            if !closure_reach(gr, s, (n - 1) as nat, x) {
+                let i = choose|i: StateItem| closure_reach(gr, s, (n - 1) as nat, i) && #[trigger] closure_step(gr, i, x);
+                assert(t.contains(i));
+            }
+        }
+    }
+}
+
+/// core of an item: rule and dot position
+pub open spec fn core_item(it: StateItem) -> (RuleIndex, usize) { (it.rule_index, it.dot) }
+
+/// core of an item set
+pub open spec fn core_has(s: Set<StateItem>, c: (RuleIndex, usize)) -> bool { exists|it: StateItem| s.contains(it) && #[trigger] core_item(it) == c }
+pub open spec fn core_subset(a: Set<StateItem>, b: Set<StateItem>) -> bool { forall|it: StateItem| #[trigger] a.contains(it) ==> core_has(b, core_item(it)) }
+pub open spec fn same_core(a: Set<StateItem>, b: Set<StateItem>) -> bool { core_subset(a, b) && core_subset(b, a) }
+
+/// kernel of goto(s, X): the items of s with X after the dot, advanced
+pub open spec fn goto_kernel_has(gr: Gram, s: Set<StateItem>, x: Symbol, k: StateItem) -> bool {
+    exists|it: StateItem| s.contains(it) && #[trigger] after_dot(gr, it) == Some(x) && k == advanced(it)
+}
+
 } // verus!
 } // mod vx_gram
